@@ -33,6 +33,9 @@ VAR_OPS = [
     ("B=6 vh-argv PREFIX | vh-argv NEXT", 'prefix', ('B', '6', 'pipeline')),     # the prefix belongs to the first command of the pipeline only
 ]
 SHALLOW_OPS = ("A='{a,b}'", "A='`vh-mark RAN 0`$(vh-mark RAN 0)'")
+# quick tier only: these are applied from the states within one step of the start and the states they lead to are
+# observed but not expanded (thorough: from every state, expanded like any other)
+SHALLOW_QUICK = ("read A B C <<< 'p'", "read B A <<< ' p   q '", "B=6 vh-argv PREFIX | vh-argv NEXT")
 CD_OPS = [("cd ROOT/d1", 'cd', 'ROOT/d1'), ("cd d2", 'cd', 'd2'), ("cd ..", 'cd', '..'), ("cd ln", 'cd', 'ln'), ("cd", 'cd', None),
           ("cd -", 'cd', '-'), ("cd nx", 'cd', 'nx'), ("cd f", 'cd', 'f'), ("cd ROOT/d1/d2", 'cd', 'ROOT/d1/d2')]
 OPS = VAR_OPS + CD_OPS
@@ -186,7 +189,7 @@ def run(rep, tier):
         meta = []
         for m, hist in frontier:
             for oi, op in enumerate(OPS):
-                if op[0] in SHALLOW_OPS and len(hist) > 1:
+                if (op[0] in SHALLOW_OPS or (tier != 'thorough' and op[0] in SHALLOW_QUICK)) and len(hist) > 1:
                     continue      # values with braces / substitutions: applied from the states within one step of the start only
                 m2 = m.copy()
                 ok, prefix = m2.apply(op)
@@ -245,7 +248,7 @@ def run(rep, tier):
                 rep.traces_validated += 1
                 if m2.key() not in seen:
                     seen[m2.key()] = hist
-                    if op[0] not in SHALLOW_OPS:       # states reached through those values are observed but not expanded further
+                    if op[0] not in SHALLOW_OPS and not (tier != 'thorough' and op[0] in SHALLOW_QUICK):       # states reached through those values are observed but not expanded further
                         nxt.append((m2, hist))
             else:
                 rep.outcome('deviation:' + dev)
